@@ -108,6 +108,19 @@ def check_convert(
         raise TypeError(err_str + msg_str) from e
     return converted_variable
 
+def get_number_of_steps(
+        start_time: float,
+        end_time: float,
+        dt: float) -> int:
+    """Number of whole time steps of length `dt` between `start_time` and
+    `end_time`. An `end_time` that is a grid point up to floating point
+    rounding (e.g. 0.3 with `dt=0.1`) counts as reached. """
+    quotient = (end_time - start_time) / dt
+    nearest = np.round(quotient)
+    if abs(quotient - nearest) < 1.0e-8:
+        return int(nearest)
+    return int(quotient)
+
 def check_true(
         expr: bool,
         msg: Text = None):
